@@ -13,7 +13,7 @@
 From Coq Require Import List NArith ZArith Bool Lia Permutation.
 Import ListNotations.
 From NV Require Import Gen.MetaConsts Gen.ResyncConsts Meta.SMap Meta.Model Meta.Spec
-  Resync.Model Resync.BatchProofs Resync.FlatProofs Resync.GcProofs.
+  Resync.Model Resync.BatchProofs Resync.FlatProofs Resync.KnownProofs Resync.GcProofs.
 Local Open Scope N_scope.
 
 Theorem C18_batching_irrelevant : forall bs e order s',
@@ -39,6 +39,16 @@ Proof.
   unfold resync_st, resync. now rewrite A, B.
 Qed.
 
+(* no blob is lost: every tombstone, every lock and every object that no tombstone of the set removes is
+   indexed with its own header after the rebuild, in every enumeration order (the rebuild's batches
+   partition the enumeration).  Partial like the theorems above: blob sets satisfying [flat_ok]. *)
+Theorem C18_no_blob_lost_partial : forall e B order,
+  flat_ok B = true -> Permutation order B ->
+  resync_ok e (map to_blob order) = true /\
+  forall c i h, In (c, i, h) B -> must_know B (c, i, h) = true ->
+  exists en, In (i, en) (objs (bucket_or_new (resync_st e (map to_blob order)) c)) /\ e_hdr en = h.
+Proof. intros e B order. exact (flat_known resync_batch_size e B order batch_size_pos). Qed.
+
 (* ---- non-vacuity: a tombstone, its expirable target, a lock of another object, a link *)
 Definition hd (t : otype) (ex : option N) (a : option oid) : hdr := mkHdr t 1 ex a None None None None None.
 Definition ex_B : list fblob :=
@@ -50,6 +60,11 @@ Example C18_premise_nonvacuous :
   status_at (resync_st 0 (map to_blob (rev ex_B))) 6 1 1 = Removed /\
   status_of_blobs 12 ex_B 1 2 = Expired.
 Proof. vm_compute. repeat split; reflexivity. Qed.
+
+Example C18_no_blob_lost_nonvacuous :
+  flat_ok ex_B = true /\ map (must_know ex_B) ex_B = [true; false; true; true; true; true] /\
+  (exists b, bucket (resync_st 0 (map to_blob ex_B)) 1 = Some b /\ stored b 4 = true /\ stored b 1 = false).
+Proof. vm_compute. repeat split; try reflexivity. eexists; repeat split; reflexivity. Qed.
 
 (* ---- the excluded classes really are order-dependent (each confirmed on the real code, notes/C18.md) *)
 Definition X := (1, 1, hd TRegular None None) : fblob.
@@ -126,6 +141,7 @@ Proof. vm_compute. split; [eexists; repeat split; reflexivity | reflexivity]. Qe
 Print Assumptions C18_batching_irrelevant.
 Print Assumptions C18_status_follows_from_blobs_partial.
 Print Assumptions C18_order_independent_partial.
+Print Assumptions C18_no_blob_lost_partial.
 Print Assumptions C18_conflict_is_order_dependent.
 Print Assumptions C18_live_conflict_is_order_dependent.
 Print Assumptions C18_expired_lock_unindexed_refuted.
